@@ -31,6 +31,7 @@ DELTA = '(1 / 10000)'
 
 def certify(ctx, name, goals):
     bad = []
+    name = f'{name}_p{os.getpid()}'
     remaining = list(goals)
     for attempt in range(8):
         if not remaining:
